@@ -309,7 +309,7 @@ impl Property for P {
     }
     fn rule(&self) -> String {
         "Generated: (suite of 48, mode, ikmR, ikmS, psk>=1B, psk_id>=1B, info, RNG stream, 0..=6 messages, 0..=3 exports with L<=255*Nh); \
-         in 20% of the cases the first message is at a non-zero sequence position (byte-carry boundaries, log-uniform; hpke contexts placed through the hook); swept: all 48x4 suite/mode cells with a fixed script, every sequence byte-carry boundary x 3 AEADs; replayed: 6 verified RFC 9180 anchors and 243 golden vectors through hpke itself. \
+         in 20% of the cases the first message is at a non-zero sequence position (byte-carry boundaries, log-uniform; hpke contexts placed through the hook); swept: all 48x4 suite/mode cells with a fixed script, every sequence byte-carry boundary x 3 AEADs, and P-256 sessions (3 KDFs x 4 modes x sealing/export-only) whose RNG delivers each committed golden ikm with a first DeriveKeyPair candidate >= n (ephemeral key on the counter-1 retry path); replayed: 6 verified RFC 9180 anchors and 243 golden vectors through hpke itself. \
          Oracle: independent RFC 9180 reference model (own HKDF, own curve arithmetic), hpke-as-sender and hpke-as-receiver; as a sender the reference sometimes chooses the ephemeral private key itself (1..3, n-1..n-3 on the NIST curves: enc is the generator or a small multiple of it). \
          Non-trivial: a non-Base mode, or >=2 messages (nonce increments), or non-empty info with non-empty aad, or a committed vector; distinct by case encoding."
             .into()
@@ -361,9 +361,38 @@ impl Property for P {
                 same.push(Case::Session { sess: a, msgs: gen::fixed_msgs(23), exports: vec![], start: 0 });
             }
         }
+        // the sender's RNG delivers keying material whose first P-256 DeriveKeyPair candidate is >= n
+        // (committed golden inputs, a 2^-32 event): enc, every ciphertext and every export must be the
+        // ones of the key pair found at counter 1; also as the second draw and as a static key's ikm
+        let mut retry = Vec::new();
+        for (gi, g) in corpus::p256_counter1().unwrap_or_default().iter().enumerate() {
+            for kdf in r::KdfId::ALL {
+                for (ai, aead) in [r::AeadId::ChaCha, r::AeadId::Export, r::AeadId::Aes128].into_iter().enumerate() {
+                    for m in 0..4u8 {
+                        if (gi + ai + m as usize) % 2 == 1 && ai == 2 {
+                            continue;
+                        }
+                        let su = r::Suite { kem: r::KemId::P256, kdf, aead };
+                        let mut a = gen::cell_session(su, m, 24 + gi as u64);
+                        let mut st = a.stream.0.clone();
+                        st[..32].copy_from_slice(&g.ikm);
+                        a.stream = Bytes(st);
+                        let exports = vec![ExportReq { ctx: Bytes(b"retry".to_vec()), len: 32 }];
+                        retry.push(Case::Session { sess: a.clone(), msgs: gen::fixed_msgs(24), exports: exports.clone(), start: 0 });
+                        if m == 3 && ai == 0 {
+                            // static keys derived from the same keying material (reference-derived bytes are
+                            // handed to the library; the ephemeral one still takes the retry path)
+                            a.ikm_r = g.ikm.clone();
+                            a.ikm_s = g.ikm.clone();
+                            retry.push(Case::Session { sess: a, msgs: gen::fixed_msgs(24), exports, start: 0 });
+                        }
+                    }
+                }
+            }
+        }
         let anchors: Vec<Case> = (0..vectors("anchors").len()).map(|i| Case::Vector { file: "anchors".into(), index: i }).collect();
         let golden: Vec<Case> = (0..vectors("golden").len()).map(|i| Case::Vector { file: "golden".into(), index: i }).collect();
-        vec![("rfc9180_anchors".into(), anchors), ("golden_vectors".into(), golden), ("suite_x_mode_cells".into(), cells), ("sequence_boundaries_x_aead".into(), high), ("ephemeral_ikm_equals_static_ikm".into(), same)]
+        vec![("rfc9180_anchors".into(), anchors), ("golden_vectors".into(), golden), ("suite_x_mode_cells".into(), cells), ("sequence_boundaries_x_aead".into(), high), ("ephemeral_ikm_equals_static_ikm".into(), same), ("ephemeral_ikm_on_the_p256_retry_path".into(), retry)]
     }
     fn check(&self, case: &Case, obs: &mut Obs) -> Verdict {
         match case {
